@@ -28,7 +28,7 @@ RULE = ("random molecules glued from 73 FG-rich fragments (carbonyls, esters, am
         "every copy with one ring bond doubled, in different writings; plus molecules whose largest node id is exactly 0 / -1 / 1 (single atoms with id 0, "
         "ids ending at 0) with groups that list a pattern hydrogen; plus a family of small hetero rings (3-6 members, O/N/S in the ring, substituents on ring atoms), each in 3 different SMILES writings / adjacency "
         "orders, with user configurations of chain patterns of depth 1-4 from a hetero anchor (a deep pattern and its prefixes as less specific groups); "
-        "about 12% of the user configurations give two groups the same name (the checker then runs on unique labels and on every reading of the reported names); "
+        "about 12% of the user configurations give two groups the same name (the checker resolves each returned entry independently against all groups carrying its name); "
         "require_implicit_hydrogen both ways. Checks: 'spec' = every clause with 'no CHILD witnessed' (must hold for every configuration), 'descendant' = the full "
         "statement 'no DESCENDANT witnessed' (run on every case, generated configurations included), 'descendant_unattributed' = a descendant failure "
         "that the kernel cannot attribute to KF-C05-descendant (configuration outside kf_descendant_classb, or model != implementation): always a violation. non-trivial = at least one group reported; "
@@ -284,41 +284,13 @@ def model_expr(c):
     return "query default_mapper $cfgs %s $g" % ct.b(c["req_h"])
 
 
-def relabelled_outputs(specs, out, cap=32):
-    """the implementation reports group NAMES; when two groups share a name an entry may stem from either.  The checker
-    identifies groups by name, so it is run on the configuration under unique labels (fc.labels_of) and on every way of
-    reading the reported names as labels (at most `cap` readings); an entry is justified if some reading passes"""
-    import itertools
-    labs = fc.labels_of(specs)
-    if out[0] != "ok":
-        return [out]
-    choices = []
-    for nm, ids in out[1]:
-        cand = [l for s, l in zip(specs, labs) if s["name"] == nm] or [nm]
-        choices.append([(l, ids) for l in cand])
-    outs = []
-    for combo in itertools.islice(itertools.product(*choices), cap):
-        outs.append(("ok", list(combo)))
-    return outs
-
-
 def coq_case(c, out):
     defs = {"g": ct.graph(c["graph"]), "out": fc.answer_term(out)}
     rq = ct.b(c["req_h"])
     agree = "answer_agreeb (%s) $out" % model_expr(c)
-    if c["specs"] is not None and fc.has_dup_names(c["specs"]):
-        defs["cfgs"] = fc.cfgs_term(c["specs"])                       # real names: what the model must reproduce
-        defs["cfgsL"] = fc.cfgs_term(c["specs"], labelled=True)       # unique labels: what the checker works on
-        rt = "(build_config_tree_from_list default_mapper $cfgsL)"
-        outs = relabelled_outputs(c["specs"], out)
-        for k, o in enumerate(outs):
-            defs["outL%d" % k] = fc.answer_term(o)
-        child = " || ".join("C05_tree_okb false default_mapper %s %s $g $outL%d" % (rt, rq, k) for k in range(len(outs)))
-        full = " || ".join("C05_tree_okb true default_mapper %s %s $g $outL%d" % (rt, rq, k) for k in range(len(outs)))
-        unattr = ("if (%s) then true else match %s with Good tr => if kf_descendant_classb (m_wildcard default_mapper) "
-                  "(m_ignore_case default_mapper) tr then (%s) else false | Bad _ => false end" % (full, rt, agree))
-        return {"defs": defs, "checks": {"agree": agree, "spec": child, "descendant": full, "descendant_unattributed": unattr},
-                "diag": [model_expr(c)]}
+    # Two groups may share a name (nothing in FGConfig forbids it) and the implementation reports names only: the Coq
+    # checker resolves every returned entry on its own, against ALL groups carrying the reported name
+    # (Spec/QuerySpec.v entry_okb: anyb over indices_named); no relabelling, no enumeration of readings here.
     if c["specs"] is None:
         # default configuration: the tree is the kernel-computed constant default_tree_val
         # (Proofs/FGDefaultTree.v: default_tree_ok, default_query_fast_ok)
